@@ -1,11 +1,13 @@
 import LoraVerif.Model.Mac
 import LoraVerif.Lemmas.ExceptLemmas
+import LoraVerif.Props.C11Codec
 /-!
 # C11 — OTAA join establishes exactly the session the JoinAccept defines
 
 On the MAC model (the JoinAccept arrives as the reference codec's view `RxJoinAccept`; the byte
-layout, MIC and key derivation themselves are checked against the LoRaWAN §6.2 formulas by the C11
-correspondence oracle and, at the codec level, by C01/C02):
+layout, MIC and key derivation themselves are theorems on the codec model — `Props/C11Codec.lean`:
+`join_request_bytes`, `join_accept_decode`, `join_accept_fields`, `session_keys` — and are also
+checked against the LoRaWAN §6.2 formulas by the C11 correspondence oracle):
 * `joined_iff_mic`: while a join is in progress a received frame makes the device joined exactly
   when it is a JoinAccept whose MIC verifies under the root key; anything else changes nothing;
 * `accept_spec`: the new session carries the assigned address, both counters restarted
@@ -141,3 +143,7 @@ end C11
 #print axioms C11.no_accept
 #print axioms C11.send_refused_while_joining
 #print axioms C11.join_nonce
+#print axioms C11.join_request_bytes
+#print axioms C11.join_accept_decode
+#print axioms C11.join_accept_fields
+#print axioms C11.session_keys
